@@ -2,7 +2,7 @@
 (***************************************************************************)
 (* C16: one event per document: what each leg of Carrier!Protocols         *)
 (* delivered.  Every leg must deliver the document itself.                 *)
-(*   Ya(n, yy, jj, jy, eq, cli, cli2)                                      *)
+(*   Ya(n, yy, jj, jy, eq, pys, cli, cli2)                                 *)
 (***************************************************************************)
 EXTENDS JsonValue, TraceCore
 FieldOrder == [k |-> 0, v |-> 0]   \* must stay the first definition of a root module (JsonValue.tla)
@@ -26,6 +26,7 @@ TYa ==
      /\ Check(Same(Rec.jj, n), "C16", "json-write-json-read")
      /\ Check(Same(Rec.jy, n), "C16", "json-write-yaml-read")
      /\ Check(Rec.eq, "C16", "yaml-born-not-equal-json-born")
+     /\ \A i \in DOMAIN Rec.pys : Check(Same(Rec.pys[i].gy, Rec.pys[i].gj) /\ Same(Rec.pys[i].gj, Rec.pys[i].m), "C16", "yaml-born-patched-like-json-born")
      /\ ("cli" \in DOMAIN Rec) => Check(Same(Rec.cli, n), "C16", "cli-json2yaml-yaml2json")
      /\ ("cli2" \in DOMAIN Rec) => Check(Same(Rec.cli2, Rec.b), "C16", "cli-yaml-diff-patch")
 Next == TYa \/ Done
